@@ -158,7 +158,7 @@ def run(chk):
                 'modes all|closest|largest; correspondence also on unsorted lists; non-trivial = at least one non-empty window; '
                 'distinct = distinct protocol line')
 
-    N = 2500 if tier == 'quick' else 60000
+    N = 8000 if tier == 'quick' else 150000
     fails_corpus = replay_corpus(chk)
 
     # ---------------------------------------------------------------- (a) get_matched_indices: model vs impl
